@@ -11,6 +11,7 @@
 import GherkinVerif.Lemmas.StreamShape
 import GherkinVerif.Gen.Dialects
 import GherkinVerif.Gen.ParserTable
+import GherkinVerif.KDecide
 namespace GV
 
 /-- Order and option gating, accepted source: the stream yields the source envelope, then one
@@ -164,6 +165,6 @@ example : Spec.wellShaped (Envelope.parseError (lit "u") ⟨.unexpectedEOF, ⟨1
     envelopes come out, all well shaped (kernel evaluation). -/
 example : ((streamEnum Gen.dialects Gen.parserTable ⟨true, true, true⟩ 0 (lit "a.feature")
       (lit "Feature: f\n  Scenario: s\n    Given a\n    And b\n")).1.map
-    (fun e => Spec.wellShaped e.toJ)) = [true, true, true] := by decide +kernel
+    (fun e => Spec.wellShaped e.toJ)) = [true, true, true] := by kdecide
 
 end GV
